@@ -16,7 +16,7 @@ def clean():
 clean()
 demo = open(f"{src}/demo_test.go", errors="replace").read()
 pkg = re.search(r"^package (\w+)", demo, re.M).group(1)
-pkgdir = {"plenc_test": ".", "plenc": ".", "plenccodec_test": "plenccodec", "plenccodec": "plenccodec", "null": "null", "null_test": "null", "plenccore": "plenccore", "plenccore_test": "plenccore", "main": "cmd/plenctag"}[pkg]
+pkgdir = {"plenc_test": ".", "plenc": ".", "plenccodec_test": "plenccodec", "plenccodec": "plenccodec", "null": "null", "null_test": "null", "plenccore": "plenccore", "plenccore_test": "plenccore", "main": "cmd/plenctag", "main_test": "cmd/plenctag"}[pkg]
 tests = "|".join(re.findall(r"^func (Test\w+)", demo, re.M))
 res = {}
 def rundemo():
